@@ -2362,6 +2362,9 @@ pub fn gen_round4<W: Write>(w: &mut W, prop: &str) {
         ],
         // a reply with too many fields is asked for again; whatever was typed, nothing stays behind
         "C18" => vec![
+            // a full pool refuses new names only: variables it holds can be overwritten, and setting one back to 0 makes room (D23)
+            (vec!["10 DIM A%(255,255)", "20 FOR I=0 TO 255:FOR J=0 TO 255:A%(I,J)=1:NEXT:NEXT", "RUN", "PRINT A%(3,3)", "A%(3,3)=5:PRINT A%(3,3)", "B=1", "A%(3,3)=0:PRINT A%(3,3)", "B=1:PRINT B", "C=1", "I=0:C=2:PRINT C", "CLEAR", "C=1:PRINT C"],
+             format!("?OUT OF MEMORY IN 20\n{0} 1 \n{0} 5 \n{0}?OUT OF MEMORY\n{0} 0 \n{0} 1 \n{0}?OUT OF MEMORY\n{0} 2 \n{0}{0} 1 \n{0}", R)),
             (vec!["10 INPUT A,B:PRINT A;B", "RUN", "RETURN", "NEXT"], format!("? 1,2,3\n?REDO FROM START\n? 1,2\n 1  2 \n{0}?RETURN WITHOUT GOSUB\n{0}?NEXT WITHOUT FOR\n{0}", R)),
         ],
         // after DELETE took lines away nothing may resume into what is gone
